@@ -379,19 +379,6 @@ def refRun [DecidableEq V] (W : World V) (P : Parser V) (o : Opts V) (data : Lis
   let r := addAll W P o (extras W P data)
   { st with result := dupdate st.result r.1, errs := st.errs ++ r.2 }
 
-theorem provided_eq [DecidableEq V] (W : World V) (o : Opts V) (f : PField V) (data : List (Key × V)) :
-    (fieldContract W o f data).provided = !(candidates W f data).isEmpty := by
-  unfold fieldContract
-  cases candidates W f data with
-  | nil => simp only; split <;> rfl
-  | cons c rest =>
-    simp only
-    split
-    · rfl
-    · split
-      · rfl
-      · split <;> rfl
-
 theorem addAll_ignore (W : World V) (P : Parser V) (o : Opts V) (h : o.addition = .ignore) (l : List (Key × V)) :
     addAll W P o l = ([], []) := by
   unfold addAll
@@ -408,31 +395,37 @@ theorem ffFieldStep_eq [DecidableEq V] {W : World V} (LL : LowerLaws W) {P : Par
     {data : List (Key × V)} (hnd : (data.map (·.1)).Nodup) {kf : Key × PField V} (hf : kf ∈ P.fields) (s : FfSt V) :
     ffFieldStep {} W o (ffMerge W P data) s kf =
       { st := applyOut kf.2 (outOf W o data kf.2) s.st
-        used := if (outOf W o data kf.2).provided then s.used ++ kf.2.allAliases else s.used } := by
+        used := if given W kf.2 data then s.used ++ kf.2.allAliases else s.used } := by
   have inv := mergeInv LL (P := P) data hnd
-  unfold ffFieldStep outOf
+  unfold ffFieldStep outOf given
   simp only
-  rw [ffPick_none _ _ (valuesAt W P data) inv.first inv.conf, ← candidates_eq LL wf hf, provided_eq]
+  rw [ffPick_none _ _ (valuesAt W P data) inv.first inv.conf, ← candidates_eq LL wf hf]
   cases hc : candidates W kf.2 data with
   | nil =>
     simp only [List.head?_nil, List.isEmpty_nil, Bool.not_true, Bool.false_eq_true, if_false]
     rw [absent_eq W o kf.2 data s.st hc]
   | cons c rest =>
     simp only [List.head?_cons, List.isEmpty_cons, Bool.not_false, if_true]
-    rw [provide_eq W o kf.2 data s.st c rest hc]
+    obtain ⟨h1, h2⟩ := provide_eq W o kf.2 data s.st c rest hc
+    rw [h1, h2]
+    cases hex : isExcluded W o kf.2 data
+    · simp only [Bool.false_eq_true, if_false]
+      unfold outA; rw [hex]; rfl
+    · simp only [if_true]
+      rw [ffExcluded_eq W o kf.2 data s.st hex]
 
 theorem ff_fold [DecidableEq V] {W : World V} (LL : LowerLaws W) {P : Parser V} (wf : WF W P) (o : Opts V)
     {data : List (Key × V)} (hnd : (data.map (·.1)).Nodup) (l : List (Key × PField V)) (hl : ∀ kf ∈ l, kf ∈ P.fields)
     (s : FfSt V) :
     l.foldl (ffFieldStep {} W o (ffMerge W P data)) s =
       { st := foldOut (outOf W o data) (l.map (·.2)) s.st
-        used := s.used ++ (l.filter fun kf => (outOf W o data kf.2).provided).flatMap (·.2.allAliases) } := by
+        used := s.used ++ (l.filter fun kf => given W kf.2 data).flatMap (·.2.allAliases) } := by
   induction l generalizing s with
   | nil => simp
   | cons kf l ih =>
     rw [List.foldl_cons, ffFieldStep_eq LL wf o hnd (hl kf (by simp)), ih (fun x hx => hl x (List.mem_cons_of_mem _ hx))]
     simp only [List.map_cons, foldOut_cons, List.filter_cons]
-    cases (outOf W o data kf.2).provided <;> simp
+    cases given W kf.2 data <;> simp
 
 end Utv.C05
 
@@ -480,7 +473,7 @@ theorem accepts_nrm_iff {W : World V} (LL : LowerLaws W) {P : Parser V} (wf : WF
 /-- the lookup key of an input key belongs to a provided field exactly when some field accepts the key -/
 theorem used_lookup_iff [DecidableEq V] {W : World V} (LL : LowerLaws W) {P : Parser V} (wf : WF W P) (o : Opts V)
     {data : List (Key × V)} {kv : Key × V} (hkv : kv ∈ data) :
-    ((P.fields.filter fun kf => (outOf W o data kf.2).provided).flatMap (·.2.allAliases)).contains (nrm W P kv.1)
+    ((P.fields.filter fun kf => given W kf.2 data).flatMap (·.2.allAliases)).contains (nrm W P kv.1)
       = anyAccepts W P kv.1 := by
   rw [Bool.eq_iff_iff]
   unfold anyAccepts
@@ -494,7 +487,7 @@ theorem used_lookup_iff [DecidableEq V] {W : World V} (LL : LowerLaws W) {P : Pa
     have hm : normKey W kf.2 kv.1 ∈ kf.2.allAliases := (accepts_iff W kf.2 kv.1).1 hacc
     have hn : nrm W P kv.1 = normKey W kf.2 kv.1 := (normKey_eq_iff_nrm LL wf hf hm kv.1).1 rfl
     refine ⟨kf, ⟨hf, ?_⟩, by rw [hn]; exact hm⟩
-    unfold outOf; rw [provided_eq, candidates_eq LL wf hf]
+    unfold given; rw [candidates_eq LL wf hf]
     have : kv.2 ∈ kf.2.allAliases.flatMap (valuesAt W P data) := by
       rw [List.mem_flatMap]
       refine ⟨nrm W P kv.1, by rw [hn]; exact hm, ?_⟩
@@ -506,7 +499,7 @@ theorem used_lookup_iff [DecidableEq V] {W : World V} (LL : LowerLaws W) {P : Pa
 theorem ffAdditions_eq [DecidableEq V] {W : World V} (LL : LowerLaws W) {P : Parser V} (wf : WF W P) (o : Opts V)
     (data : List (Key × V)) (st : St V) :
     ffAdditions W P o
-        ((P.fields.filter fun kf => (outOf W o data kf.2).provided).flatMap (·.2.allAliases)) data st =
+        ((P.fields.filter fun kf => given W kf.2 data).flatMap (·.2.allAliases)) data st =
       { st with result := dupdate st.result (addAll W P o (extras W P data)).1
                 errs := st.errs ++ (addAll W P o (extras W P data)).2 } := by
   unfold ffAdditions
@@ -527,7 +520,7 @@ theorem ffAdditions_eq [DecidableEq V] {W : World V} (LL : LowerLaws W) {P : Par
         · simp only [if_true, Bool.not_true, Bool.false_eq_true, if_false]; exact ih _
     rw [hfold]
     have hfilter : data.filter (fun kv =>
-          !((P.fields.filter fun kf => (outOf W o data kf.2).provided).flatMap (·.2.allAliases)).contains
+          !((P.fields.filter fun kf => given W kf.2 data).flatMap (·.2.allAliases)).contains
               (lookupKey W P kv.1))
         = extras W P data := by
       unfold extras
